@@ -108,6 +108,8 @@ type policyConnPool struct {
 
 	mu            sync.RWMutex
 	hostConnPools map[string]*hostConnPool
+	// closed is set by Close, no pools are created afterwards
+	closed bool
 }
 
 func connConfig(cfg *ClusterConfig) (*ConnConfig, error) {
@@ -177,6 +179,10 @@ func newPolicyConnPool(session *Session) *policyConnPool {
 func (p *policyConnPool) SetHosts(hosts []*HostInfo) {
 	p.mu.Lock()
 	defer p.mu.Unlock()
+
+	if p.closed {
+		return
+	}
 
 	toRemove := make(map[string]struct{})
 	for hostID := range p.hostConnPools {
@@ -250,6 +256,8 @@ func (p *policyConnPool) Close() {
 	p.mu.Lock()
 	defer p.mu.Unlock()
 
+	p.closed = true
+
 	// close the pools
 	for addr, pool := range p.hostConnPools {
 		delete(p.hostConnPools, addr)
@@ -260,6 +268,10 @@ func (p *policyConnPool) Close() {
 func (p *policyConnPool) addHost(host *HostInfo) {
 	hostID := host.HostID()
 	p.mu.Lock()
+	if p.closed {
+		p.mu.Unlock()
+		return
+	}
 	pool, ok := p.hostConnPools[hostID]
 	if !ok {
 		pool = newHostConnPool(
